@@ -50,6 +50,7 @@ type repoShadow struct {
 	deleted  map[string]bool       // blobs whose last acknowledged request was a delete through the blob API
 	refDirty bool                  // referrers bookkeeping no longer exact (blob of an artifact deleted, switch toggled …)
 	twinned  bool                  // a push of the bytes of a referrers response document was acknowledged here
+	refEver  map[string]bool       // digest tokens of every manifest ever acknowledged here with a subject
 }
 
 type Monitors struct {
@@ -68,6 +69,7 @@ type Monitors struct {
 	gcBefore   *gcPre
 	aged       map[string]bool // repo|digest whose age was set beyond the grace period
 	diskShadow map[string]*repoShadow
+	diskAged   map[string]bool // ages of the blobs in the directory under a memory overlay
 	// every digest a history has touched in a repository (for the restart observation)
 	everSeen map[string]map[string]bool
 }
@@ -160,11 +162,20 @@ func (m *Monitors) restarted(h *H) {
 	m.sess = map[int]*sessShadow{}
 	if m.prevStore == "dir" {
 		m.diskShadow = copyShadow(m.repos)
+		m.diskAged = map[string]bool{}
+		for k, v := range m.aged {
+			m.diskAged[k] = v
+		}
 	}
 	switch kv(h.confToks, "store") {
 	case "dir":
 	case "memdir":
 		m.repos = copyShadow(m.diskShadow)
+		// … and to the ages the files of the directory have (what the discarded overlay had uploaded again is gone)
+		m.aged = map[string]bool{}
+		for k, v := range m.diskAged {
+			m.aged[k] = v
+		}
 	default:
 		m.repos = map[string]*repoShadow{}
 	}
@@ -934,6 +945,10 @@ func (m *Monitors) mPut(h *H, a []string, r Resp) {
 		}
 		ms.at = at
 		ms.refDesc = fmt.Sprintf("%s/%s/%d/%s/%s", h.tk.tokDigest(real), mt, len(body), at, bi.ann)
+		if rs.refEver == nil {
+			rs.refEver = map[string]bool{}
+		}
+		rs.refEver[h.tk.tokDigest(real)] = true
 		one, _ := json.Marshal(types.Index{SchemaVersion: 2, MediaType: types.MediaTypeOCI1ManifestList, Manifests: []types.Descriptor{{
 			MediaType: mtRealOf(mt), Digest: digest.Digest(real), Size: int64(len(body)), ArtifactType: mtRealOf(at), Annotations: parseAnn(bi.ann)}}})
 		ms.refSize = len(one)
@@ -1174,6 +1189,11 @@ func (m *Monitors) refs(h *H, a []string, r Resp) {
 			m.flag(h, "C07.refs-exact", "descriptor listed twice: "+g)
 		}
 		seen[g] = true
+		// C16: whatever kind of listing this is (fresh, filtered, a continuation with cache= and page=), it lists manifests of
+		// this repository only: a referrer that was never pushed here comes from somewhere else
+		if dtok := strings.SplitN(g, "/", 2)[0]; !rs.refEver[dtok] && !rs.dirty && kv(h.confToks, "store") != "memdir" {
+			m.flag(h, "C16.cross-serve", fmt.Sprintf("referrers listing of %s in %s names %s, which was never pushed to this repository with a subject", sTok, repo, dtok))
+		}
 		// a continuation (cache=<digest of the response the client started with>) pages through that snapshot: what it
 		// lists is judged when the chain is walked from a fresh request (below), not against the present state
 		if !exp[g] && kv(a, "cache") == "" {
